@@ -260,9 +260,9 @@ func c05Exec(c *Ctx, cs c05Case) (outcome string) {
 		tgt = new(spec.Parameter)
 	case "ResolveResponseWithBase", "ResolveResponse":
 		tgt = new(spec.Response)
-	case "ResolvePathItemWithBase":
+	case "ResolvePathItemWithBase", "ResolvePathItem":
 		tgt = new(spec.PathItem)
-	case "ResolveItemsWithBase":
+	case "ResolveItemsWithBase", "ResolveItems":
 		tgt = new(spec.Items)
 	}
 	wb, _ := json.Marshal(want)
@@ -324,6 +324,14 @@ func c05Run(c *Ctx) {
 					}
 					if du == rootURL && sp == spShort && nd.kind == "response" {
 						run(c05Case{Fn: "ResolveResponse", Ref: ref, Root: "generic", Kind: nd.kind})
+					}
+					if sp == spShort && nd.kind == "pathItem" {
+						run(c05Case{Fn: "ResolvePathItem", Ref: ref, Root: "typed", Kind: nd.kind})
+						run(c05Case{Fn: "ResolvePathItem", Ref: ref, Root: "nil", Kind: nd.kind})
+					}
+					if sp == spShort && nd.kind == "items" {
+						run(c05Case{Fn: "ResolveItems", Ref: ref, Root: "generic", Kind: nd.kind})
+						run(c05Case{Fn: "ResolveItems", Ref: ref, Root: "nil", Kind: nd.kind})
 					}
 				}
 				// dangling pointers: last token replaced, one token appended, a member the node's type knows but the node does not have
